@@ -519,6 +519,224 @@ def generate(repo):
         return None
     g.fact('adapterScalarPassThrough', 'prysm/x/polarization.py:jones_adapter', adapter_passthrough)
 
+    # ------------------------------------------------------------------ Jones vectors (Session 3)
+    def _vec_target(t, name, batched):
+        """`v[i]` (scalar branch) / `v[..., i, 0]` (array branch) / `v[..., i]` -> i, else None"""
+        if not (isinstance(t, ast.Subscript) and isinstance(t.value, ast.Name) and t.value.id == name):
+            return None
+        sl = t.slice.elts if isinstance(t.slice, ast.Tuple) else [t.slice]
+        vals = [e.value if isinstance(e, ast.Constant) else None for e in sl]
+        if batched == 'col' and len(vals) == 3 and vals[0] is Ellipsis and vals[1] in (0, 1) and vals[2] == 0:
+            return vals[1]
+        if batched == 'last' and len(vals) == 2 and vals[0] is Ellipsis and vals[1] in (0, 1):
+            return vals[1]
+        if batched == 'plain' and len(vals) == 1 and vals[0] in (0, 1) and not isinstance(vals[0], bool):
+            return vals[0]
+        return None
+
+    def _vec_chain(stmts, name, batched, tr):
+        term, seen = 'V2.zero', False
+        for st in stmts:
+            if isinstance(st, ast.Assign) and len(st.targets) == 1:
+                if isinstance(st.targets[0], ast.Name) and st.targets[0].id == name:
+                    if not (isinstance(st.value, ast.Call) and ast.unparse(st.value.func) == '_empty_pol_vector'):
+                        raise Untranslatable(f'{name} is not created by _empty_pol_vector')
+                    term, seen = 'V2.zero', True
+                    continue
+                i = _vec_target(st.targets[0], name, batched)
+                if i is not None:
+                    if not seen:
+                        raise Untranslatable('component write before the vector exists')
+                    term = f'(V2.set {term} {i} {tr.expr(st.value)})'
+                    continue
+                if name in _stored_names(st):
+                    raise Untranslatable(f'unrecognised write to {name}: {ast.unparse(st)[:50]}')
+            elif name in _stored_names(st):
+                raise Untranslatable(f'unrecognised write to {name}: {ast.unparse(st)[:50]}')
+        if not seen:
+            raise Untranslatable(f'{name} never created')
+        return term
+
+    def linpol():
+        fn = get_def(po, 'linear_pol_vector')
+        if [a.arg for a in fn.args.args] != ['angle', 'degrees']:
+            raise Untranslatable('signature of linear_pol_vector')
+        top = [st for st in fn.body if not (isinstance(st, ast.Expr) and isinstance(st.value, ast.Constant))]
+        ifs = [st for st in top if isinstance(st, ast.If)]
+        if len(ifs) != 2 or ast.unparse(ifs[0].test) != 'degrees' or ifs[0].orelse or len(ifs[0].body) != 1 \
+                or not isinstance(ifs[0].body[0], ast.Assign) or ast.unparse(ifs[0].body[0].targets[0]) != 'angle':
+            raise Untranslatable('`if degrees:` does not just convert angle')
+        conv = Tr({'angle': 'angle', 'np.pi': 'pi'}, 'num').expr(ifs[0].body[0].value)
+        env = straight_env([st for st in top if isinstance(st, ast.Assign)], {'np.cos(angle)': 'c', 'np.sin(angle)': 's'})
+        for st in top:      # the trigonometric functions are taken AFTER the conversion
+            if isinstance(st, ast.Assign) and ('np.cos(angle)' in ast.unparse(st) or 'np.sin(angle)' in ast.unparse(st)) \
+                    and top.index(st) < top.index(ifs[0]):
+                raise Untranslatable('cos / sin taken before the degree conversion')
+        tr = Tr(env, 'num')
+        br = ifs[1]
+        if ast.unparse(br.test).replace(' ', '').replace('"', "'") != "hasattr(angle,'ndim')" or not br.orelse:
+            raise Untranslatable('array / scalar branch not recognised')
+        arr = _vec_chain(br.body, 'pol_vector', 'col', tr)
+        sca = _vec_chain(br.orelse, 'pol_vector', 'plain', tr)
+        if [ast.unparse(r) for r in find_returns(fn)] != ['pol_vector']:
+            raise Untranslatable('return')
+        dflt = ast.literal_eval(default_of(fn, 'degrees'))
+        return (f'def linPolAngleFromDegrees (pi angle : K) : K := {conv}\n'
+                f'def linPolDegreesDefault : Bool := {"true" if dflt else "false"}\n'
+                f'def linPolArray (c s : K) : V2 K := {arr}\n'
+                f'def linPolScalar (c s : K) : V2 K := {sca}')
+    g.item('linear_pol_vector', 'prysm/x/polarization.py:linear_pol_vector', lambda: get_def(po, 'linear_pol_vector'), linpol,
+           'def linPolAngleFromDegrees (pi angle : K) : K := angle * pi / Num.ofInt 180\ndef linPolDegreesDefault : Bool := true\n'
+           f'def linPolArray (c s : K) : V2 K := {M}.linPol c s\ndef linPolScalar (c s : K) : V2 K := {M}.linPol c s')
+
+    def circpol():
+        fn = get_def(po, 'circular_pol_vector')
+        if [a.arg for a in fn.args.args] != ['handedness', 'shape']:
+            raise Untranslatable('signature of circular_pol_vector')
+        tr = Tr({'np.sqrt(2)': 'r2', '1j': 'I', '-1j': '(-I)'}, 'num')
+        top = [st for st in fn.body if not (isinstance(st, ast.Expr) and isinstance(st.value, ast.Constant))]
+        ifs = [st for st in top if isinstance(st, ast.If)]
+        if len(ifs) != 1:
+            raise Untranslatable('expected one handedness chain')
+        common = [st for st in top if st is not ifs[0] and not isinstance(st, ast.Return)]
+        arms = {}
+        node = ifs[0]
+        raises = False
+        while True:
+            if not (isinstance(node.test, ast.Compare) and ast.unparse(node.test.left) == 'handedness' and isinstance(node.test.ops[0], ast.Eq)):
+                raise Untranslatable('handedness test')
+            arms[ast.literal_eval(node.test.comparators[0])] = _vec_chain(common + node.body, 'pol_vector', 'last', tr)
+            if len(node.orelse) == 1 and isinstance(node.orelse[0], ast.If):
+                node = node.orelse[0]
+            else:
+                raises = len(node.orelse) == 1 and isinstance(node.orelse[0], ast.Raise)
+                if node.orelse and not raises:
+                    raise Untranslatable('else branch')
+                break
+        if sorted(arms) != ['left', 'right']:
+            raise Untranslatable(f'handedness values {sorted(arms)}')
+        dflt = ast.literal_eval(default_of(fn, 'handedness'))
+        if dflt not in arms:
+            raise Untranslatable('default handedness')
+        return (f'def circPol (I r2 : K) (left : Bool) : V2 K := if left then {arms["left"]} else {arms["right"]}\n'
+                f'def circDefaultLeft : Bool := {"true" if dflt == "left" else "false"}\n'
+                f'def circUnknownHandednessRaises : Bool := {"true" if raises else "false"}')
+    g.item('circular_pol_vector', 'prysm/x/polarization.py:circular_pol_vector', lambda: get_def(po, 'circular_pol_vector'), circpol,
+           f'def circPol (I r2 : K) (left : Bool) : V2 K := {M}.circPol I r2 left\ndef circDefaultLeft : Bool := true\n'
+           'def circUnknownHandednessRaises : Bool := true')
+
+    # ------------------------------------------------------------------ second pass: index maps / wiring of the remaining helpers
+    def kron_map():
+        """broadcast_kron as an index map: einsum subscripts (implicit output = sorted letters, or the explicit one) followed by the
+        reshape that merges the first two and the last two output axes (all of size 2): row r -> (r / 2, r % 2), column c likewise"""
+        fn = get_def(po, 'broadcast_kron')
+        calls = [c for c in ast.walk(fn) if isinstance(c, ast.Call) and ast.unparse(c.func) == 'np.einsum']
+        if len(calls) != 1 or len(calls[0].args) != 3 or not isinstance(calls[0].args[0], ast.Constant) or calls[0].keywords:
+            raise Untranslatable('einsum call')
+        ops = [ast.unparse(a) for a in calls[0].args[1:]]
+        if sorted(ops) != ['a', 'b']:
+            raise Untranslatable(f'einsum operands {ops}')
+        sub = calls[0].args[0].value.replace(' ', '')
+        m = re.fullmatch(r'\.\.\.([a-zA-Z])([a-zA-Z]),\.\.\.([a-zA-Z])([a-zA-Z])(?:->\.\.\.([a-zA-Z]{4}))?', sub)
+        if not m or len({m.group(1), m.group(2), m.group(3), m.group(4)}) != 4:
+            raise Untranslatable(f'einsum subscripts {sub}')
+        first, second = (m.group(1), m.group(2)), (m.group(3), m.group(4))
+        out = m.group(5) or ''.join(sorted(first + second))
+        if sorted(out) != sorted(first + second):
+            raise Untranslatable('einsum output letters')
+        (ret,) = find_returns(fn)
+        want = '.reshape([*a.shape[:-2],a.shape[-2]*b.shape[-2],a.shape[-1]*b.shape[-1]])'
+        if not ast.unparse(inline_locals(fn, ret)).replace(' ', '').endswith(want):
+            raise Untranslatable('reshape of the einsum result')
+        pos = {out[0]: '(r / 2)', out[1]: '(r % 2)', out[2]: '(c / 2)', out[3]: '(c % 2)'}
+        lhs = {ops[0]: first, ops[1]: second}
+        return ('def kronEntry (a b : M22 K) (r c : Nat) : K := '
+                f'a.get {pos[lhs["a"][0]]} {pos[lhs["a"][1]]} * b.get {pos[lhs["b"][0]]} {pos[lhs["b"][1]]}')
+    g.item('broadcast_kron', 'prysm/x/polarization.py:broadcast_kron', lambda: get_def(po, 'broadcast_kron'), kron_map,
+           f'def kronEntry (a b : M22 K) (r c : Nat) : K := {M}.kron a b r c')
+
+    def apply_optic():
+        fn = get_def(po, 'apply_polarization_optic')
+        if [a.arg for a in fn.args.args] != ['field', 'pol_optic']:
+            raise Untranslatable('signature of apply_polarization_optic')
+        top = [st for st in fn.body if not (isinstance(st, ast.Expr) and isinstance(st.value, ast.Constant))]
+        if len(top) != 3 or not isinstance(top[0], ast.If) or top[0].orelse or len(top[0].body) != 1:
+            raise Untranslatable('body shape')
+        if ast.unparse(top[0].test).replace(' ', '') not in ('field.ndim==2', 'np.ndim(field)==2'):
+            raise Untranslatable('ndim test')
+        ex = ast.unparse(top[0].body[0]).replace(' ', '').replace('None', 'np.newaxis')
+        if ex != 'field=field[...,np.newaxis,np.newaxis]':
+            raise Untranslatable(f'expansion of the field: {ex}')
+        st = top[1]
+        if not (isinstance(st, ast.Assign) and isinstance(st.value, ast.BinOp) and isinstance(st.targets[0], ast.Name)):
+            raise Untranslatable('product statement')
+        opn = {ast.Mult: '*', ast.Add: '+', ast.Sub: '-', ast.Div: '/'}.get(type(st.value.op))
+        l, r = ast.unparse(st.value.left), ast.unparse(st.value.right)
+        if opn is None or sorted([l, r]) != ['field', 'pol_optic']:
+            raise Untranslatable(f'product {ast.unparse(st.value)}')
+        if not (isinstance(top[2], ast.Return) and ast.unparse(top[2].value) == st.targets[0].id):
+            raise Untranslatable('return')
+        ent = lambda e: f'(J.{e} {opn} f)' if l == 'pol_optic' else f'(f {opn} J.{e})'
+        return 'def applyOptic (f : K) (J : M22 K) : M22 K := ⟨' + ', '.join(ent(e) for e in 'abcd') + '⟩'
+    g.item('apply_polarization_optic', 'prysm/x/polarization.py:apply_polarization_optic', lambda: get_def(po, 'apply_polarization_optic'),
+           apply_optic, 'def applyOptic (f : K) (J : M22 K) : M22 K := M22.smul f J')
+
+    def adapter_forwards():
+        """every component call is prop_func(E, *other_args, **kwargs) with other_args = args[1:] (or () when there is none), and the
+        result container appends (2, 2) to the shape of a component result"""
+        fn = get_def(po, 'jones_adapter')
+        wr = [n for n in fn.body if isinstance(n, ast.FunctionDef) and n.name == 'wrapper'][0]
+        if not (wr.args.vararg and wr.args.vararg.arg == 'args' and wr.args.kwarg and wr.args.kwarg.arg == 'kwargs' and not wr.args.args):
+            return None
+        oth = [ast.unparse(st.value).replace(' ', '') for st in ast.walk(wr) if isinstance(st, ast.Assign) and ast.unparse(st.targets[0]) == 'other_args']
+        if not oth or any(o not in ('args[1:]', '()', 'tuple()') for o in oth) or 'args[1:]' not in oth:
+            return None if not any(o.startswith('args[') for o in oth) else False
+        calls = [c for c in ast.walk(wr) if isinstance(c, ast.Call) and ast.unparse(c.func) == 'prop_func']
+        comp = [c for c in calls if ast.unparse(c).replace(' ', '') != 'prop_func(*args,**kwargs)']
+        if not comp:
+            return None
+        for c in comp:
+            a = [ast.unparse(x).replace(' ', '') for x in c.args]
+            k = [(x.arg, ast.unparse(x.value)) for x in c.keywords]
+            if len(a) == 2 and a[1] == '*other_args' and k == [(None, 'kwargs')]:
+                continue
+            if len(a) >= 1 and (a[1:] in ([], ['*other_args'])) and k in ([], [(None, 'kwargs')]):
+                return False           # recognised: extra positional or keyword arguments are dropped
+            return None
+        outs = [ast.unparse(st.value).replace(' ', '') for st in wr.body if isinstance(st, ast.Assign) and ast.unparse(st.targets[0]) == 'out']
+        if len(outs) != 1:
+            return None
+        if re.fullmatch(r'np\.(empty|zeros)\([\[\(]\*(\w+)\.shape,2,2[\]\)],dtype=\2\.dtype\)', outs[0]):
+            return True
+        if re.fullmatch(r'np\.(empty|zeros)\([\[\(]2,2,\*(\w+)\.shape[\]\)],dtype=\2\.dtype\)', outs[0]):
+            return False               # recognised: the matrix axes in front instead of behind
+        return None
+    g.fact('adapterForwardsArgumentsAndShape', 'prysm/x/polarization.py:jones_adapter', adapter_forwards)
+
+    def add_jones():
+        """add_jones_propagation replaces propagation.<name> by jones_adapter(propagation.<name>) for exactly the listed names;
+        the default list is supported_propagation_funcs"""
+        fn = get_def(po, 'add_jones_propagation')
+        if ast.unparse(default_of(fn, 'funcs_to_change')) != 'supported_propagation_funcs':
+            return False
+        loops = [st for st in fn.body if isinstance(st, ast.For)]
+        if len(loops) != 1 or ast.unparse(loops[0].iter).replace(' ', '') != 'vars(propagation).items()' \
+                or ast.unparse(loops[0].target).replace(' ', '') not in ('name,func', '(name,func)'):
+            return None
+        body = loops[0].body
+        if len(body) != 1 or not isinstance(body[0], ast.If) or body[0].orelse:
+            return None
+        test = ast.unparse(body[0].test).replace(' ', '')
+        if test != 'nameinfuncs_to_change':
+            return False if test in ('namenotinfuncs_to_change',) else None
+        sets = [ast.unparse(x).replace(' ', '') for x in body[0].body]
+        if sets == ['setattr(propagation,name,jones_adapter(func))']:
+            return True
+        if len(sets) == 1 and sets[0].startswith('setattr('):
+            return False
+        return None
+    g.fact('addJonesWrapsEachListedFunctionInPlace', 'prysm/x/polarization.py:add_jones_propagation', add_jones)
+
     # ------------------------------------------------------------------ documented default arguments
     def defaults():
         tr = Tr({'np.pi': 'pi'}, 'num')
